@@ -24,6 +24,10 @@ func c12World(tp *Tape, env *Env) (*Plan, *Violation) {
 	}
 	g := &gen{tp: tp, cfg: cfg}
 	prog := g.program()
+	if tp.Chance(15, "deepchain") {
+		g.addDeepChain(prog, []string{"stop", "stop", "none"})
+		env.St.probe("stop_inside_block_chain_6_to_12_deep")
+	}
 	g.ensureYieldingCycles(prog)
 	layout := genLayout(tp)
 	w := World{Readers: distribute(tp, prog, layout, 2)}
